@@ -7,6 +7,7 @@ import (
 	"strconv"
 	"strings"
 	"sync"
+	"sync/atomic"
 	"testing"
 	"time"
 
@@ -29,6 +30,7 @@ type c07Tunnel struct {
 	Ops     []string `json:"ops"`      // c2h | h2c | hostclose ; then End
 	End     string   `json:"end"`      // close | drop | ooo
 	StartMs int      `json:"start_ms"`
+	SlowPair bool    `json:"slow_pairing,omitempty"` // legacy: RDG_IN_DATA follows RDG_OUT_DATA only after another tunnel has ended (or 150 ms)
 }
 
 type c07Case struct {
@@ -36,10 +38,12 @@ type c07Case struct {
 	Gen1      int         `json:"first_generation"` // tunnels whose host greets and hangs up, run before the concurrent ones
 	Tunnels   []c07Tunnel `json:"tunnels"`
 	Rogue     bool        `json:"rogue_in"` // pairing probe: OUT(id-a) is open, an IN with a similar but different id arrives
+	SharedSub bool        `json:"shared_token_subject,omitempty"` // token auth: every cookie carries the same subject (rendered user name) although the accounts behind the access tokens differ
 }
 
 func genC07(t *rapid.T, maxTunnels int) c07Case {
 	c := c07Case{TokenAuth: rapid.Bool().Draw(t, "tokenAuth"), Gen1: rapid.SampledFrom([]int{0, 0, 2, 6}).Draw(t, "gen1"), Rogue: rapid.IntRange(0, 2).Draw(t, "rogue") == 0}
+	c.SharedSub = c.TokenAuth && rapid.IntRange(0, 2).Draw(t, "sharedSub") == 0
 	n := rapid.IntRange(1, maxTunnels).Draw(t, "tunnels")
 	for i := 0; i < n; i++ {
 		tn := c07Tunnel{Kind: genKind(t), User: strconv.Itoa(rapid.IntRange(1, 9).Draw(t, "user")),
@@ -49,6 +53,7 @@ func genC07(t *rapid.T, maxTunnels int) c07Case {
 		if tn.Kind == "legacy" && tn.IDStyle == "none" {
 			tn.IDStyle = "free" // a legacy pair needs an identifier
 		}
+		tn.SlowPair = tn.Kind == "legacy" && rapid.IntRange(0, 2).Draw(t, "slowPair") == 0
 		for j, m := 0, rapid.IntRange(0, 6).Draw(t, "nops"); j < m; j++ {
 			tn.Ops = append(tn.Ops, rapid.SampledFrom([]string{"c2h", "c2h", "h2c", "h2c", "h2c-big", "hostclose"}).Draw(t, "op"))
 		}
@@ -64,6 +69,8 @@ func c07Block(i int, dir string, off, n int) []byte {
 	}
 	return b.Bytes()[:n]
 }
+
+var c07Ended atomic.Int64 // tunnels (of this process) that have run to their end
 
 var freeIDCtr int
 var freeIDMu sync.Mutex
@@ -90,7 +97,27 @@ type c07Result struct {
 func runC07Tunnel(i int, tn c07Tunnel, c c07Case, o gwOpts, mkTarget func(user string) gwc.Target, P int, g *hostGrid, from []int) string {
 	w := W()
 	tgt := mkTarget(tn.User)
-	conn, err := gwc.Dial(tn.Kind, tgt, c07ConnID(tn.IDStyle, i))
+	defer c07Ended.Add(1)
+	var conn gwc.Conn
+	var err error
+	if tn.SlowPair && tn.Kind == "legacy" {
+		id := c07ConnID(tn.IDStyle, i)
+		var l *gwc.Legacy
+		if l, err = gwc.OpenOut(tgt, id); err == nil {
+			// between the two requests of the pair other tunnels come and go
+			before := c07Ended.Load()
+			for dl := time.Now().Add(150 * time.Millisecond); c07Ended.Load() == before && time.Now().Before(dl); {
+				time.Sleep(200 * time.Microsecond)
+			}
+			time.Sleep(2 * time.Millisecond) // let that tunnel's tear-down run
+			if err = l.OpenIn(tgt, id); err != nil {
+				l.Close()
+			}
+			conn = l
+		}
+	} else {
+		conn, err = gwc.Dial(tn.Kind, tgt, c07ConnID(tn.IDStyle, i))
+	}
 	if err != nil {
 		return fmt.Sprintf("tunnel %d: transport did not open: %v", i, err)
 	}
@@ -109,7 +136,11 @@ func runC07Tunnel(i int, tn c07Tunnel, c c07Case, o gwOpts, mkTarget func(user s
 		if tn.Setup == "bad-cookie" {
 			key = []byte("another-signing-key-of-32-chars!")
 		}
-		units = append(units, tsgu.TunnelCreate(jwx.MintHS256(cookieClaims(tokenHost, "127.0.0.1", at, tn.User, time.Now().Add(4*time.Minute)), key), true))
+		subject := tn.User
+		if c.SharedSub {
+			subject = "alice" // e.g. alice@corp-a and alice@corp-b with user/domain splitting: the identity is the account behind the access token
+		}
+		units = append(units, tsgu.TunnelCreate(jwx.MintHS256(cookieClaims(tokenHost, "127.0.0.1", at, subject, time.Now().Add(4*time.Minute)), key), true))
 	} else {
 		units = append(units, tsgu.TunnelCreate("", false))
 	}
